@@ -13,6 +13,9 @@
 (***************************************************************************)
 EXTENDS Integers, Sequences, FiniteSets, TLC
 
+CONSTANT ReadFaultGivesUp   \* TRUE (the code): a failed read of the stored assignment ends the handling of the event;
+                            \* FALSE (seeded change C18f): the handler goes on as if no assignment existed
+
 VARIABLES
   repoLive,    \* nodes registered in the repository
   repoAssign,  \* [db -> [shard -> Seq(node)]]: assignment stored in the repository
@@ -95,32 +98,42 @@ Elect(replicas, live) ==
 \* ---- processEvent: one event
 AssignEv(db, a) == [t |-> "ShardAssignmentChanged", db |-> db, assign |-> a]
 
-\* onDatabaseCfgChange -> shardAssignment(cfg); start / shift are the random choices of the code
-ProcDatabaseChanged(e, start, shift) ==
+\* onDatabaseCfgChange -> shardAssignment(cfg); start / shift are the random choices of the code.
+\* fault: what the repository does to this event (the environment's fault, transient):
+\*   "none"
+\*   "read"  the read of the stored assignment fails (not "does not exist"): the event is given up, nothing is written
+\*           (a handler that went on would take "no assignment" for granted and assign every shard anew)
+\*   "put1"  the first write of the assignment fails: nothing is written, no assignment event
+\*   "put2"  the second write (SaveDatabaseAssignment, same key) fails: the assignment is stored, one event
+Evs(db, a, fault) == IF fault = "put2" THEN << AssignEv(db, a) >> ELSE << AssignEv(db, a), AssignEv(db, a) >>
+ProcDatabaseChanged(e, start, shift, fault) ==
   /\ dbs' = Put1(dbs, e.db, [shards |-> e.shards, rf |-> e.rf])
   /\ LET nodes == SortedSeq(repoLive)
          n == Len(nodes)
      IN
-     IF e.db \notin DOMAIN repoAssign
+     IF fault = "read" /\ ReadFaultGivesUp
+       THEN UNCHANGED repoAssign /\ pending' = Tail(pending)
+     ELSE IF e.db \notin DOMAIN repoAssign \/ fault = "read"
        THEN \* createShardAssignment
-            IF n = 0 \/ e.rf > n \/ e.rf <= 0 \/ e.shards <= 0
+            IF n = 0 \/ e.rf > n \/ e.rf <= 0 \/ e.shards <= 0 \/ fault = "put1"
               THEN UNCHANGED repoAssign /\ pending' = Tail(pending)
               ELSE LET a == AssignShards(nodes, 0, e.shards, e.rf, start, shift) IN
                    /\ repoAssign' = Put1(repoAssign, e.db, a)
                    \* written under both paths: two assignment events
-                   /\ pending' = Tail(pending) \o << AssignEv(e.db, a), AssignEv(e.db, a) >>
+                   /\ pending' = Tail(pending) \o Evs(e.db, a, fault)
      ELSE LET cur == repoAssign[e.db]
               have == Cardinality(DOMAIN cur)
           IN
           IF have = e.shards
             THEN \* nothing changed: the assignment is rewritten once to trigger the event
-                 UNCHANGED repoAssign /\ pending' = Tail(pending) \o << AssignEv(e.db, cur) >>
-          ELSE IF have > e.shards \/ n = 0 \/ e.rf > n \/ e.rf <= 0
+                 /\ UNCHANGED repoAssign
+                 /\ pending' = IF fault = "none" THEN Tail(pending) \o << AssignEv(e.db, cur) >> ELSE Tail(pending)
+          ELSE IF have > e.shards \/ n = 0 \/ e.rf > n \/ e.rf <= 0 \/ fault = "put1"
             THEN UNCHANGED repoAssign /\ pending' = Tail(pending)     \* "not implemented" / error
           ELSE LET add == AssignShards(nodes, have, e.shards - have, e.rf, start, shift)
                    a == [sid \in (DOMAIN cur) \cup (DOMAIN add) |-> IF sid \in DOMAIN cur THEN cur[sid] ELSE add[sid]]
                IN /\ repoAssign' = Put1(repoAssign, e.db, a)
-                  /\ pending' = Tail(pending) \o << AssignEv(e.db, a), AssignEv(e.db, a) >>
+                  /\ pending' = Tail(pending) \o Evs(e.db, a, fault)
   /\ UNCHANGED <<repoLive, stateLive, sAssign, sStates>>
 
 \* onShardAssignmentChange -> initializeShardState
@@ -164,14 +177,16 @@ ProcDatabaseDeleted(e) ==
   /\ pending' = Tail(pending)
   /\ UNCHANGED <<repoLive, stateLive>>
 
-Process(start, shift) ==
+ProcessF(start, shift, fault) ==
   /\ pending # << >>
+  /\ (fault # "none" => Head(pending).t = "DatabaseConfigChanged")
   /\ LET e == Head(pending) IN
-     CASE e.t = "DatabaseConfigChanged"  -> ProcDatabaseChanged(e, start, shift)
+     CASE e.t = "DatabaseConfigChanged"  -> ProcDatabaseChanged(e, start, shift, fault)
        [] e.t = "ShardAssignmentChanged" -> ProcAssignChanged(e)
        [] e.t = "NodeStartup"            -> ProcNodeStartup(e)
        [] e.t = "NodeFailure"            -> ProcNodeFailure(e)
        [] e.t = "DatabaseConfigDeletion" -> ProcDatabaseDeleted(e)
+Process(start, shift) == ProcessF(start, shift, "none")
 
 \* ------------------------------------------------------------------ properties (C18)
 \* evaluated when every event has been processed (the two views agree)
